@@ -32,7 +32,7 @@ const fqExpr = `. as [$f, $b]
     ( $b | decode($f) | . as $r
     | if $r._error != null then "err"
       else
-        [ (try [$r | torepr] catch ("reprerr:" + tostring))
+        [ (try [$r | torepr] catch "reprerr")
         , [ $r | keys[] | select(startswith("gap")) as $k | $r[$k] | [._start, (tobytes | tohex)] ]
         ]
       end
@@ -168,7 +168,7 @@ func addEncoding(cs *[]*tcase, r *hlib.Rand, format string, v *val, enc []byte, 
 		}
 		nEnds, nRand := 24, 16
 		if len(enc) > 4096 {
-			nEnds, nRand = 6, 4
+			nEnds, nRand = 3, 2
 		}
 		for k := 0; k < nEnds; k++ {
 			add(k)
@@ -205,7 +205,7 @@ func main() {
 		return
 	}
 
-	nRandom, truncLimit := 150, 160
+	nRandom, truncLimit := 60, 40
 	if cfg.Thorough() {
 		nRandom, truncLimit = 5000, 400
 	}
@@ -227,7 +227,10 @@ func main() {
 		// directed: every admissible form of the top node (inner nodes: smallest, then random)
 		for _, v := range f.directed() {
 			for first := 0; first < 12; first++ {
-				for _, rr := range []*hlib.Rand{nil, r.Fork()} {
+				for pass, rr := range []*hlib.Rand{nil, r.Fork()} {
+					if pass == 1 && !thorough && first != 0 {
+						continue // quick: one random-inner-forms pass per value only
+					}
 					enc := f.enc(nil, v, &picker{r: rr, first: first})
 					if seenEnc[string(enc)] || (len(enc) > 4096 && rr != nil) {
 						continue
